@@ -18,7 +18,10 @@ RULE = ("ipcp/lcp/v6: ProcessConfReq called directly; every option list of lengt
         "several requests per instance (sticky peer state). hi/hl/h6: histories on ONE real IPCP/LCP/IPv6CP object — "
         "ProcessConfReq interleaved with ProcessConfAck/Nak/Rej (rejection / re-valuation of each of our options) and "
         "SetPeerAddress/SetDNS/SetAddress/SetMagic/SetMRU/SetAuthProto/SetInterfaceID — every history of length <= 3 over "
-        "a 9..16-symbol op alphabet plus random ones up to length 12; BuildConfReq printed after every non-request step. fsm: the real FSM with the real handler in every state 0..9, "
+        "a 9..16-symbol op alphabet, every Nak/Reject/Ack of each of our own options with unsupported or boundary "
+        "suggestions (auth EAP / MS-CHAP / CHAP without algorithm / PAP / unknown, MRU below floor / max, magic ours / "
+        "zero; foreign address / DNS) followed by a request echoing the suggestion (with and without SetAuthProto "
+        "first), plus random ones up to length 12; BuildConfReq printed after every non-request step. fsm: the real FSM with the real handler in every state 0..9, "
         "Input(ConfReq) with serialized structured lists, random bytes, truncations, bad length bytes, trailing byte; "
         "emitted packets decoded by an independent decoder. sess: real SessionState (initPPP, extractIPFromAttributes, "
         "startNCP, onIPCPUp, re-authentication = both run again on the same session) with AAA address none / usable / 0.0.0.0 / IPv6 and random histories of subscriber "
@@ -208,6 +211,32 @@ def gen_cases(rng, tier, budget):
               "q" + opt(3, "c22305") + "," + opt(1, "05d4"), "q" + opt(3, "c22381"), "j" + opt(5, "%08x" % M1),
               "j" + opt(1, "05d4") + "," + opt(3, "c22305"), "n" + opt(5, "%08x" % M2), "a" + opt(5, "%08x" % M2),
               "n" + opt(3, "c023") + "," + opt(1, "0200"), "n" + opt(5, "00000000"), "M%d" % M2, "M0", "T49699/5", "U1400"]
+    # answers to OUR options with unsupported / boundary suggestions, and requests echoing what was suggested
+    auth_vals = ["c227", "c22381", "c22380", "c223", "c023", "c22305", "c025", "8021", "c2230500", "c02301"]
+    mru_vals = ["003f", "0040", "0000", "ffff", "05dd", "05"]
+    magic_vals = ["%08x" % M1, "00000000", "%08x" % M2, "ffffffff"]
+    sugg = [opt(3, v) for v in auth_vals] + [opt(1, v) for v in mru_vals] + [opt(5, v) for v in magic_vals]
+    hl_echo = (["n" + o for o in sugg] + ["q" + o for o in sugg] +
+               ["j" + opt(3, "c22305"), "j" + opt(1, "05d4"), "j" + opt(5, "%08x" % M1), "a" + opt(3, "c22381"),
+                "a" + opt(1, "003f") + "," + opt(5, "00000000")])
+    for pre in (["T49699/5"], ["T49187/0"], []):
+        for n in (1, 2):
+            for t in itertools.product(hl_echo, repeat=n):
+                if any(x[0] == "q" for x in t):
+                    cases.append("hl %d %s" % (M1, " ".join(pre + list(t))))
+    # suggestion, then the very same value requested, with something in between
+    for o in sugg:
+        for mid in ("j" + o, "a" + o, "q-", "M%d" % M2, "n" + opt(3, "c22305")):
+            cases.append("hl %d T49699/5 n%s %s q%s q%s" % (M1, o, mid, o, olist([o, opt(1, "05d4")])))
+    # the same for IPCP (Nak/Reject/Ack of our address and DNS options with foreign values, then echoed) and IPv6CP
+    isugg = [opt(3, v) for v in (B, "06060606", "00000000", "ffffffff", A)] + \
+            [opt(129, v) for v in ("00000000", "01010101")] + [opt(131, "02020202")]
+    hi_echo = ["n" + o for o in isugg] + ["q" + o for o in isugg] + ["j" + opt(3, A), "a" + opt(3, "06060606")]
+    for pre in (["L" + "0a000001"], []):
+        for n in (1, 2):
+            for t in itertools.product(hi_echo, repeat=n):
+                if any(x[0] == "q" for x in t):
+                    cases.append("hi %s 08080808 08080404 %s" % (A, " ".join(pre + list(t))))
     L1, L2 = "5054fffe112233aa", "0200000000000002"
     h6_ops = ["q" + opt(1, L1), "q" + opt(1, L2), "q" + opt(1, "00" * 8), "n" + opt(1, L2), "a" + opt(1, L2),
               "n" + opt(1, "00" * 8), "j" + opt(1, L1), "I" + L2, "I" + "00" * 8]
@@ -239,8 +268,12 @@ def gen_cases(rng, tier, budget):
             m = rng.choice([M1, M1, 0, 1])
             alpha = lcp_alpha(m)[:-1]
             ops = []
+            if rng.random() < 0.7:
+                ops.append(rng.choice(["T49699/5", "T49699/5", "T49187/0", "T49699/129"]))
             for _ in range(ln):
-                if rng.random() < 0.75:
+                if rng.random() < 0.4:
+                    ops.append(rng.choice(hl_echo))
+                elif rng.random() < 0.75:
                     ops.append(rng.choice(hl_ops))
                 else:
                     ops.append(rng.choice("qanj") + olist([rng.choice(alpha) for _ in range(rng.randrange(0, 4))]))
